@@ -150,7 +150,7 @@ package spine
 //@   loop 0 invariant len: len(newBindingEntries) == Fcnt($k)
 //@   loop 0 invariant elems: forall j int :: 0 <= j && j < $k && kept($s[j]) ==> newBindingEntries[Fcnt(j)] == $s[j]
 //@   loop 0 invariant events: evn == pre(evn) + ($k - Fcnt($k))
-//@   loop 0 invariant locked: held(c.mux)
+//@   loop 0 invariant[C09] locked: held(c.mux)
 
 // ---------------------------------------------------------------------------------------
 // subscription registry (C08, C10)
@@ -717,12 +717,17 @@ package spine
 //@   ensures[C01] no-response: noResp
 //@   ensures[C06] one-removal-per-removed-entry: message.FilterPartial != nil && result == nil ==> ren == old(ren) + Rcnt(len(EI))
 //@   ensures[C06] removes-its-own-entity: message.FilterPartial != nil && result == nil ==> forall j int :: 0 <= j && j < len(EI) && isRemoved(old(EI[j])) ==> redev[old(ren) + Rcnt(j)] == RD && readdr[old(ren) + Rcnt(j)] == old(EI[j].Description.EntityAddress.Entity)
-//@   modifies @PUBLISH, world, held, ren, redev, readdr, cells(model.NodeManagementDetailedDiscoveryDataType), cells(model.NetworkManagementEntityDescriptionDataType), cells(model.NodeManagementDetailedDiscoveryEntityInformationType), cells(model.NodeManagementDetailedDiscoveryFeatureInformationType), cells(model.NetworkManagementStateChangeType), cells(model.EntityTypeType)
+//@   define own(k) = old(ren) < casat[k] && casat[k] <= ren && reres[casat[k] - 1] != nil && ((caskind[k] == 1 || caskind[k] == 2) ==> casent[k] == reres[casat[k] - 1]) && (caskind[k] == 3 ==> casaddr[k] == reres[casat[k] - 1].Address())
+//@   ensures[C06] cascade-own-entity: message.FilterPartial != nil ==> forall k int :: old(casn) <= k && k < casn ==> own(k)
+//@   ensures[C06] cascade-complete: message.FilterPartial != nil && result == nil ==> forall i int :: old(ren) <= i && i < ren && reres[i] != nil ==> exists k int :: old(casn) <= k && k + 2 < casn && caskind[k] == 1 && caskind[k + 1] == 2 && caskind[k + 2] == 3 && casat[k] == i + 1 && casat[k + 1] == i + 1 && casat[k + 2] == i + 1
+//@   modifies @CASCADE, @PUBLISH, world, held, ren, redev, readdr, cells(model.NodeManagementDetailedDiscoveryDataType), cells(model.NetworkManagementEntityDescriptionDataType), cells(model.NodeManagementDetailedDiscoveryEntityInformationType), cells(model.NodeManagementDetailedDiscoveryFeatureInformationType), cells(model.NetworkManagementStateChangeType), cells(model.EntityTypeType)
 //@   loop 0 invariant partial: message.FilterPartial != nil ==> $s == EI
 //@   loop 0 invariant count: message.FilterPartial != nil ==> ren == old(ren) + Rcnt($k)
 //@   loop 0 invariant each: message.FilterPartial != nil ==> forall j int :: 0 <= j && j < $k && isRemoved(old(EI[j])) ==> redev[old(ren) + Rcnt(j)] == RD && readdr[old(ren) + Rcnt(j)] == old(EI[j].Description.EntityAddress.Entity)
 //@   loop 0 invariant input-kept: message.FilterPartial != nil ==> forall j int :: 0 <= j && j < len(EI) ==> EI[j] == old(EI[j])
-//@   loop 1 invariant removals-unchanged: ren == pre(ren) && redev == pre(redev) && readdr == pre(readdr)
+//@   loop 0 invariant cascade-own: message.FilterPartial != nil ==> casn >= old(casn) && ren >= old(ren) && forall k int :: old(casn) <= k && k < casn ==> own(k)
+//@   loop 0 invariant cascade-all: message.FilterPartial != nil ==> forall i int :: old(ren) <= i && i < ren && reres[i] != nil ==> exists k int :: old(casn) <= k && k + 2 < casn && caskind[k] == 1 && caskind[k + 1] == 2 && caskind[k + 2] == 3 && casat[k] == i + 1 && casat[k + 1] == i + 1 && casat[k + 2] == i + 1
+//@   loop 1 invariant removals-unchanged: ren == pre(ren) && redev == pre(redev) && readdr == pre(readdr) && reres == pre(reres) && casn == pre(casn) && caskind == pre(caskind) && casent == pre(casent) && casaddr == pre(casaddr) && casat == pre(casat)
 
 //@ func (*NodeManagement).handleMsgDetailedDiscoveryData
 //@   requires NMREQ && message.DeviceRemote != nil && message.DeviceRemote.Sender() == nmS
